@@ -280,7 +280,7 @@ type PertCase struct {
 	Perts []Pert `json:"perts"`
 }
 
-var pertKinds = []string{"mw+1", "mh+1", "mw-1", "mw,mh*2", "mw*2", "tw*2", "th*2", "tw,th*2", "origin-x", "origin-y", "corner", "cell*out", "cell*in", "id-string", "id-other", "varw", "remove", "scale-denominator"}
+var pertKinds = []string{"mw+1", "mh+1", "mw-1", "mw,mh+1", "mw,mh-1", "mw,mh*2", "mw*2", "tw*2", "th*2", "tw,th*2", "origin-x", "origin-y", "corner", "cell*out", "cell*in", "id-string", "id-other", "varw", "remove", "scale-denominator"}
 
 // cell size factors clearly outside and clearly inside the tool's 1.99-2.01 band
 var cellOut = []float64{1.02, 0.98, 1.1, 0.9, 2, 0.5, 1.011, 0.989}
@@ -301,6 +301,17 @@ func applyPert(t tms20.TileMatrixSet, p Pert) tms20.TileMatrixSet {
 			m.MatrixWidth--
 		} else {
 			m.MatrixWidth += 2
+		}
+	case "mw,mh+1": // still square, one tile too many each way (2n+1: passes a doubling test that halves with integer division)
+		m.MatrixWidth++
+		m.MatrixHeight++
+	case "mw,mh-1":
+		if m.MatrixWidth > 1 && m.MatrixHeight > 1 {
+			m.MatrixWidth--
+			m.MatrixHeight--
+		} else {
+			m.MatrixWidth += 2
+			m.MatrixHeight += 2
 		}
 	case "mw,mh*2":
 		m.MatrixWidth *= 2
@@ -343,7 +354,7 @@ func applyPert(t tms20.TileMatrixSet, p Pert) tms20.TileMatrixSet {
 }
 
 var specC14Perturb = report.Spec{Property: "C14", Check: "C14Perturb", Exhaustive: true,
-	Rule: "exhaustive: every accepted built-in set x every tile matrix level x every single-field perturbation from the list {matrixWidth+1, matrixHeight+1, matrixWidth-1, width*2, width and height*2, tileWidth*2, tileHeight*2, both*2, origin x/y shifted, corner flipped, cellSize x f for 8 factors outside the 1.99-2.01 band and 4 inside, id string garbled, id string of the next matrix, variable widths added, matrix removed, scaleDenominator changed}. " +
+	Rule: "exhaustive: every accepted built-in set x every tile matrix level x every single-field perturbation from the list {matrixWidth+1, matrixHeight+1, matrixWidth-1, width and height+1, width and height-1, width*2, width and height*2, tileWidth*2, tileHeight*2, both*2, origin x/y shifted, corner flipped, cellSize x f for 8 factors outside the 1.99-2.01 band and 4 inside, id string garbled, id string of the next matrix, variable widths added, matrix removed, scaleDenominator changed}. " +
 		"Oracle (two sided): the independent true-quadtree predicate decides: perturbed set no longer a true quadtree => validation returns an error; still one (last matrix removed, cell size inside the band, scale denominator) => accepted; never a panic. Non-trivial: perturbation at a level other than 0 and 1. Distinct by (set, level, perturbation)."}
 
 func oraclePert(c PertCase) (o report.Outcome) {
